@@ -549,9 +549,10 @@ def r5(run, ctx):
             run.check('R5', guarded(cfg, p_, lambda e: True if norm_text(e) == 'self.copy_path'
                                     else None, True), 'PYTHONPATH is injected only with copy_path',
                       f, p_.ast)
+    cp = lambda e: True if norm_text(e) == 'self.copy_path' else None
     rs = [n for n in ctx.live_nodes(f) if n.kind == 'stmt' and isinstance(n.ast, ast.Raise) and
-          'copy_env and copy_path' in norm_text(n.ast)]
-    run.check('R5', bool(rs) and guarded(cfg, rs[0], ce(True), False), 'copy_path without copy_env '
+          guarded(cfg, n, cp, True) and guarded(cfg, n, ce(True), False)]
+    run.check('R5', bool(rs), 'copy_path without copy_env '
               'is refused', f, rs[0].ast if rs else f.node)
     # nothing else rewrites env afterwards except virtualenv loading
     later = [n for n in ctx.live_nodes(f) if n.kind == 'stmt' and any(
